@@ -145,9 +145,9 @@ enum { T_CLEAN, T_LINE0, T_DAMAGE, T_MUTATED, T_RANDOM, T_TRUNC, T_N };
 static const char *const type_name[T_N] = { "clean", "line0", "damage", "mutated", "random", "truncated" };
 
 enum { D_NONE, D_GARBAGE, D_OVERWRITE, D_TRUNCATE, D_LENGTH, D_FOREIGN, D_ILLEGAL_DU, D_BITFLIP, D_DROP, D_DUP,
-       D_TS_LOST, D_TS_SWAP, D_TS_CC, D_TS_BITS, D_N };
+       D_TS_LOST, D_TS_SWAP, D_TS_CC, D_TS_BITS, D_NESTED, D_OVERFULL, D_N };
 static const char *const dmg_name[D_N] = { "none", "garbage", "overwrite", "truncate", "length", "foreign", "illegal-du", "header-bitflip", "drop-packet", "repeat-packet",
-	"ts-lost", "ts-swap", "ts-continuity", "ts-flags" };
+	"ts-lost", "ts-swap", "ts-continuity", "ts-flags", "nested-in-foreign", "overfull-frame" };
 
 static void insert_item(int at, uint8_t *data, size_t len, int damaged)
 {
@@ -435,6 +435,54 @@ static int apply_damage(struct vf_rng *r, int kind, int v, const struct dg_cfg *
 			snprintf(desc, dl, "foreign PES packet (stream_id 0x%02x, %zu bytes) inserted after packet %d", b[3], n, v);
 		}
 		break;
+	case D_NESTED: {
+		/* PES only: garbage, then a packet of a foreign stream whose payload ends with (or contains) a complete
+		   copy of one of the stream's own VBI PES packets.  ISO 13818-1 framing hides the nested packet;
+		   where scanning resumes must not depend on how the bytes before it were cut. */
+		static const uint8_t sids[] = { 0xBC, 0xBE, 0xBF, 0xC0, 0xDF, 0xE0, 0xEF, 0xF0, 0xFF };
+		int src = vf_range(r, 0, n_sent - 1), sf = first_item_of(src);
+		size_t g = (size_t)vf_range(r, 0, 400), pre = (size_t)vf_range(r, 0, 300), post = vf_chance(r, 1, 2) ? 0 : (size_t)vf_range(r, 1, 64), plen, k;
+		if (c->ts || sf < 0 || items[sf].len > 60000) return 0;
+		plen = pre + items[sf].len + post;
+		if (plen > 65535) return 0;
+		b = aalloc(g + 6 + plen);
+		if (!b) return 0;
+		switch (vf_below(r, 3)) {
+		case 0: memset(b, 0xFF, g); break;
+		case 1: memset(b, 0x00, g); if (g) b[g - 1] = 0xFF; break;
+		default: vf_bytes(r, b, g); for (k = 0; k + 2 < g; k++) if (b[k] == 0 && b[k + 1] == 0 && b[k + 2] == 1) b[k + 2] = 2; if (g) b[g - 1] |= 0x80; if (g > 1) b[g - 2] |= 0x80; break;
+		}
+		b[g] = 0; b[g + 1] = 0; b[g + 2] = 1; b[g + 3] = sids[vf_below(r, sizeof sids)];
+		b[g + 4] = (uint8_t)(plen >> 8); b[g + 5] = (uint8_t)plen;
+		vf_bytes(r, b + g + 6, pre);
+		for (k = 0; k + 2 < pre; k++) if (b[g + 6 + k] == 0 && b[g + 6 + k + 1] == 0 && b[g + 6 + k + 2] == 1) b[g + 6 + k + 2] = 3;
+		memcpy(b + g + 6 + pre, items[sf].data, items[sf].len);
+		vf_bytes(r, b + g + 6 + pre + items[sf].len, post);
+		insert_item(l + 1, b, g + 6 + plen, 1);
+		snprintf(desc, dl, "%zu garbage bytes and a foreign PES packet (stream_id 0x%02x, %zu bytes payload containing a copy of VBI packet %d at payload offset %zu) inserted after packet %d",
+			 g, b[g + 3], plen, src, pre, v);
+		break; }
+	case D_OVERFULL: {
+		/* PES only: a well-formed VBI PES packet with so many Teletext data units of undefined line number
+		   (line_offset 0, same field) that the frame in progress grows beyond the 64 lines the demultiplexer
+		   holds; "oversized packets" of the statement */
+		int units = 4 * vf_range(r, 16, 30) - 1, k;       /* header + units is a multiple of 4 * 46 = 184 */
+		size_t total = 46 * (size_t)(units + 1);
+		if (c->ts || items[f].len < 46) return 0;
+		b = aalloc(total);
+		if (!b) return 0;
+		memcpy(b, items[f].data, 46);                    /* start code, header with PTS, data_identifier */
+		b[4] = (uint8_t)((total - 6) >> 8); b[5] = (uint8_t)(total - 6);
+		for (k = 0; k < units; k++) {
+			uint8_t *u = b + 46 + 46 * k;
+			u[0] = vf_chance(r, 1, 8) ? 0x03 : 0x02; u[1] = 0x2C;
+			u[2] = (uint8_t)(0xC0 | (vf_chance(r, 1, 20) ? 0x20 : 0));      /* field parity mostly constant, line_offset 0 */
+			u[3] = 0xE4;
+			vf_bytes(r, u + 4, 42);
+		}
+		insert_item(l + 1, b, total, 1);
+		snprintf(desc, dl, "VBI PES packet with %d Teletext data units of undefined line number (%zu bytes) inserted after packet %d", units, total, v);
+		break; }
 	case D_ILLEGAL_DU: {
 		const struct sent *st = &sent[v];
 		unsigned o, what = vf_below(r, 5);
@@ -952,7 +1000,7 @@ static int run_case(struct vf_rng *r, long idx)
 			int v, tries;
 			for (tries = 0; tries < 6 && dmg == D_NONE; tries++) {
 				int kind = c.ts ? (int[]){ D_GARBAGE, D_OVERWRITE, D_TRUNCATE, D_LENGTH, D_FOREIGN, D_ILLEGAL_DU, D_BITFLIP, D_DROP, D_DUP, D_TS_LOST, D_TS_SWAP, D_TS_CC, D_TS_BITS, D_TS_LOST, D_TS_CC }[vf_below(r, 15)]
-						: (int[]){ D_GARBAGE, D_OVERWRITE, D_TRUNCATE, D_LENGTH, D_FOREIGN, D_ILLEGAL_DU, D_BITFLIP, D_DROP, D_DUP, D_GARBAGE, D_TRUNCATE }[vf_below(r, 11)];
+						: (int[]){ D_GARBAGE, D_OVERWRITE, D_TRUNCATE, D_LENGTH, D_FOREIGN, D_ILLEGAL_DU, D_BITFLIP, D_DROP, D_DUP, D_GARBAGE, D_TRUNCATE, D_NESTED, D_NESTED, D_OVERFULL }[vf_below(r, 14)];
 				if (n_sent < 5) break;
 				v = vf_range(r, 1, n_sent - 4);
 				sync_risk = apply_damage(r, kind, v, &c, desc, sizeof desc);
